@@ -10,6 +10,9 @@ Oracle handlers for the aligner behind phasing (C16; ops of `tools/harness/ops_p
 * `phasent1`: model result = `phaseNT` on one sequence; verdict = "trimmed exactly at the ORF's start"
   under the same premise; a removed result must carry the untrimmed input.  A run-time panic (none is left
   in the repaired code on the generated inputs) is rendered `exit:2`: the harness process dies.
+* `phaseaa1`: model result = `phaseAAOfRefs` (what `Phase()` does with the references in translate mode, then
+  `phaseAA` = `alignAgainstRefsAA`) on one sequence, rendered like `phasent1`; verdict = `aaVerdict`, the framing
+  clauses of C16 evaluated on the **implementation's** result from definitions that do not use the model.
 -/
 namespace Gv.Oracle.PhaseAlignOps
 open Gv Gv.Oracle Gv.Model Gv.Model.SW Gv.Model.Phase Gv.Model.PhaseAlign
@@ -60,6 +63,42 @@ def domB (a : Aligner) (s t : Seq) : Bool :=
 def premise (a : Aligner) (orf seq : Seq) : Bool :=
   domB a orf seq && decide (a.gapopen ≤ a.gapextend) && decide (a.gapextend < 0) && !orf.isEmpty &&
   !orf.contains GAP && (occurrences orf seq).length == 1
+
+/-- the C16 clauses for ONE result of the translate mode (`alignAgainstRefsAA`), evaluated on the implementation's
+answer `<pos>|<removed>|<nt>|<codon>|<aa>` from the inputs alone (the strands, the published translation
+`codonsFrom` — nothing of `phaseAA` / `assembleAA`):
+
+* a removed result (the cut-offs are switched off, so: no alignment with a positive score) is the untrimmed
+  input at position 0, codon sequence = input, no amino acids;
+* a kept result: the trimmed nucleotides occur at the reported position of the forward strand — or, only when
+  both strands are searched, of the reverse-complemented copy — and run to the end of that strand unless the end
+  is cut; the codon sequence IS the trimmed sequence; the amino acids are exactly the frame-0 translation of the
+  codon sequence with the case's genetic code, i.e. one residue per complete codon: the 1 or 2 nucleotides that
+  may follow the last complete codon (`(len − position) mod 3`, possible only without cut-end) are kept in the
+  nucleotide / codon sequences and have no amino acid; with cut-end the trimmed sequence is a whole number of
+  codons, so `3 · |aa| = |nt|`. -/
+def aaVerdict (code : List (List Byte × Byte)) (reverse cutend : Bool) (seq : Seq) (impl : String) : String :=
+  if impl.startsWith "panic" || impl.startsWith "exit:" then "fail:worker-panic" else
+  if !impl.startsWith "ok " then "na" else
+  match ((impl.splitOn " ").getD 2 "").splitOn "|" with
+  | [pos, rm, nt, codon, aa] =>
+    match pos.toNat? with
+    | none => "fail:bad-result"
+    | some pos =>
+      let nt := decSeq nt
+      let codon := decSeq codon
+      let aa := decSeq aa
+      if rm == "1" then
+        verdictOf (pos == 0 && nt == seq && codon == seq && aa.isEmpty) "removed-result-is-not-the-input"
+      else
+        let strands := if reverse then [seq, revcompIgnoringError seq] else [seq]
+        if !(strands.any fun t => occursAt nt t pos && (cutend || pos + nt.length == t.length)) then
+          "fail:nt-not-substring-of-strand-at-position"
+        else if codon != nt then "fail:codon-sequence-differs-from-trimmed-nucleotides"
+        else if aa != codonsFrom code codon then "fail:aa-not-translation-of-codon-sequence"
+        else if cutend && nt.length % 3 != 0 then "fail:cutend-not-whole-codons"
+        else "pass"
+  | _ => "fail:bad-result"
 
 def handle : Handler := fun op args impl =>
   match op, args with
@@ -150,6 +189,32 @@ def handle : Handler := fun op args impl =>
           else removedOk
         | _ => removedOk
       some ⟨model, verdict⟩
+  | "phaseaa1", [den, gopen, gext, mt, mm, rev, ce, code, orfs, seq] => do
+    let den ← parseInt? den
+    let gopen ← optInt gopen
+    let gext ← optInt gext
+    let codeId ← parseInt? code
+    let refs ← decRows orfs
+    let seq := decSeq seq
+    let f := fields impl
+    let v : Nat := ((lookup "v" f).bind String.toNat?).getD 3
+    let setScore : Option (Int × Int) ←
+      if mt == "_" then some none else do
+        let x ← parseInt? mt
+        let y ← parseInt? mm
+        some (some (x, y))
+    match geneticCode codeId with
+    | none => some ⟨"err-code", "na"⟩
+    | some tbl =>
+      let c : NTCfg := { den := den, gapopen := gopen.getD (-10 * den), gapextend := gext.getD (-(den / 2)),
+                         scores := setScore, reverse := decBool rev, cutend := decBool ce,
+                         fixed := v % 2 == 1, alphaFixed := v / 2 % 2 == 1 }
+      -- the harness builds the reference bag with `AutoAlphabet()`: nucleotide references are translated by `Phase()`
+      let rs := refs.map (·.2)
+      let model := match phaseAAOfRefs c tbl (autoAlphabet rs) rs seq with
+        | none => s!"err v={v}"
+        | some out => renderNT v out
+      some ⟨model, aaVerdict tbl c.reverse c.cutend seq impl⟩
   | _, _ => none
 
 end Gv.Oracle.PhaseAlignOps
